@@ -85,6 +85,45 @@ func renderDoc(d Doc, fonts text.FontConfiguration) (*document.Document, error) 
 	return &rd, nil
 }
 
+// traceOfRecorder turns what the recording backend received into a Trace.
+// Everything is COPIED out of the recorder (the anchors slice handed to
+// CreateAnchors is the implementation's own: a later Write of the same Document
+// could alias it), so a Trace is a snapshot taken right after the Write.
+func traceOfRecorder(rec *render.Recorder) (tr Trace) {
+	tr.Status = "ok"
+	tr.Pages = rec.Pages
+	for _, e := range rec.Events {
+		var sb strings.Builder
+		fmt.Fprintf(&sb, "%d %d %s %q", e.Page, e.Depth, e.Op, e.S)
+		for _, a := range e.Args {
+			sb.WriteByte(' ')
+			sb.WriteString(bits(a))
+		}
+		tr.Events = append(tr.Events, sb.String())
+	}
+	for _, pa := range rec.Anchors {
+		l := []Anchor{}
+		for _, a := range pa {
+			l = append(l, Anchor{a.Name, a.X, a.Y})
+		}
+		tr.Anchors = append(tr.Anchors, l)
+	}
+	flatBookmarks("", rec.Bookmarks, &tr.Bookmarks)
+	keys := make([]string, 0, len(rec.Meta))
+	for k := range rec.Meta {
+		keys = append(keys, k)
+	}
+	sort.Strings(keys)
+	for _, k := range keys {
+		tr.Meta = append(tr.Meta, k+"="+rec.Meta[k])
+	}
+	// attachments handed to SetAttachments (none for most documents: no line)
+	for i, a := range rec.Attach {
+		tr.Meta = append(tr.Meta, fmt.Sprintf("attachment[%d]=%q %q %d %x", i, a.Title, a.Description, len(a.Content), sha256.Sum256(a.Content)))
+	}
+	return tr
+}
+
 // renderTrace runs /repo's full pipeline on one document
 func renderTrace(d Doc, fonts text.FontConfiguration) (tr Trace) {
 	if d.Probe != "" {
@@ -96,34 +135,7 @@ func renderTrace(d Doc, fonts text.FontConfiguration) (tr Trace) {
 			tr.Status, tr.Msg = "error", err.Error()
 			return
 		}
-		rec := render.Draw(rd, 1)
-		tr.Status = "ok"
-		tr.Pages = rec.Pages
-		for _, e := range rec.Events {
-			var sb strings.Builder
-			fmt.Fprintf(&sb, "%d %d %s %q", e.Page, e.Depth, e.Op, e.S)
-			for _, a := range e.Args {
-				sb.WriteByte(' ')
-				sb.WriteString(bits(a))
-			}
-			tr.Events = append(tr.Events, sb.String())
-		}
-		for _, pa := range rec.Anchors {
-			l := []Anchor{}
-			for _, a := range pa {
-				l = append(l, Anchor{a.Name, a.X, a.Y})
-			}
-			tr.Anchors = append(tr.Anchors, l)
-		}
-		flatBookmarks("", rec.Bookmarks, &tr.Bookmarks)
-		keys := make([]string, 0, len(rec.Meta))
-		for k := range rec.Meta {
-			keys = append(keys, k)
-		}
-		sort.Strings(keys)
-		for _, k := range keys {
-			tr.Meta = append(tr.Meta, k+"="+rec.Meta[k])
-		}
+		tr = traceOfRecorder(render.Draw(rd, 1))
 	})
 	if o.Status != "ok" {
 		// a panic is an observable too (C01 owns "never panics"; here only: same outcome every time)
